@@ -84,6 +84,37 @@ THEOREMS.update({
 EXPLANATION += ("  CONSTRUCTOR: MSEDistance.__init__ is re-translated on every run (LS_INIT_MSE -> Generated/SrcInits.v) and proved to store its flag; "
                 "trusted: the translator only (no primitive): `self.<attr>` is a variable of the translation (attr_vars), the value of the translated __init__ is the tuple of the attributes when it ends; an attribute that is not declared is refused.")
 
+# ---- gap review G7.2: calculate_distance_matrix.get_args translated, main() as a whole command (Generated/SrcCliArgsDist.v, Proofs/C07SourceArgs.v) ----
+THEOREMS.update({
+    "C07_model_is_source_cli_args_get_args": "the translation of the WHOLE function calculate_distance_matrix.get_args (parse_args() = the raw namespace) equals Cli.cd_get_args: class lookup among DistanceMetric subclasses, its required-argument annotations, --distance-metric-param cast by them ({} when the option is absent), stored in metric_cls / metric_params; no other attribute of the namespace is written (args.thetas keeps its command-line order)",
+    "C07_model_is_source_cli_args_calculate_distance_matrix": "calculate_distance_matrix.main translated as a whole command (get_args() = the translated get_args; args.metric_cls(**args.metric_params) = construct on the two attributes) equals Cli.cli_calculate_distance_matrix_cmd",
+    "C07_model_is_source_cli_args_calculate_distance_matrix_world": "the same with the introspection record made of the TRANSLATED get_class / get_required_init_args_with_annotations (Props/C18.v)",
+    "C07_cli_metric_is_configured": "whenever the translated command writes its file: the class named by --distance-metric was found, the --distance-metric-param items were cast by its required-argument annotations, construct on that class and EXACTLY those parameters gave the metric, and the file holds what the library computes with that metric (an option that is dropped or ignored contradicts this)",
+    "C07_cli_defaulted_metric_param_is_key_error": "observation, outside the property: a --distance-metric-param key naming an __init__ argument that has a default is a KeyError (types are looked up among required arguments only) - so MSEDistance's only option sigmoid cannot be given on the command line",
+})
+THEOREMS.update({
+    "C07_hand_built_incomplete_refused": "gap review G7.1: ANY matrix whose stored keys are distinct, strictly lower-triangular and in range (= what add_value calls in any order build) and that misses a pair refuses to densify",
+    "C07_hand_built_complete_densifies": "such a matrix with every pair stored densifies to the symmetric zero-diagonal matrix of its values",
+    "C07_to_dense_accepts_ill_formed_refuted": "the side condition is needed: add_value accepts a diagonal key and is_complete counts entries, so ChunkedDistanceMatrix(3) + add_value(1,1,5), (2,2,7), (1,0,3) densifies with two pairs missing and a non-zero diagonal (witness replayed on the implementation: extra check props-witness-ill-formed-densified); outside the property's quantifier",
+})
+RULE += ("  script (gap review G7.1): now with a predicate - a to_dense on a hand-built matrix whose stored keys are distinct, strictly lower-triangular and in range must refuse iff a pair is missing and "
+         "otherwise give the symmetric zero-diagonal matrix of the stored values; a dedicated stream adds all pairs of a size 2-5 matrix by hand in random order over one or two objects "
+         "(one pair left out / a diagonal, repeated or out-of-range key thrown in), concat, save + load, is_complete, to_dense; matrices with a diagonal / repeated key are tagged, not judged.  "
+         "mse_edge (gap review G7.3): +-inf predictions and predictions of unequal lengths, outcome of the unchanged tree written down in _run_mse_edge (NaN for identical +-inf without sigmoid; a length-1 vector is broadcast).")
+RULE += ("  cli (gap review G7.2 + seeded C07-m9): several --thetas files whose command-line order differs from the lexicographic order of their paths "
+         "(12 single-sample files chain_0..chain_11 in numeric order, 3 files reversed, random shuffles; distinct predictions per posterior sample), 1 and several chunks: entry (i,j) of the assembled "
+         "matrix = the configured metric on posterior samples i and j in COMMAND-LINE order (chain-major); --distance-metric-param on a harness-defined DistanceMetric with required "
+         "annotated arguments (every boolean spelling, a float; the constructor refuses uncast strings) and on MSEDistance (sigmoid=...: KeyError on the unchanged tree = feature "
+         "defaulted-param-refused, no verdict; if the command runs the entries must be those of the metric as configured).")
+EXPLANATION += ("  CLI ARGUMENTS (gap review G7.2): calculate_distance_matrix.get_args and main() as a whole command are re-translated on every run (configurations ARGS_GET_ARGS_CD / ARGS_CMD_CD, "
+                "Generated/SrcCliArgsDist.v) and proved equal to Cli.cd_get_args / cli_calculate_distance_matrix_cmd.  Trusted there: the translator; get_parser() = a handle, parser.parse_args() = the raw "
+                "namespace `raw` (ANY record cd_ns; the option table itself is read by argparse_reader and stated in C18), introspection.get_class / get_required_init_args_with_annotations = the components of the "
+                "introspection record (instantiated by their own translations in the _world theorem), cast_dict_to_type = its translation, DistanceMetric = the base-class token, "
+                "c(**p) = construct c p; the namespace attributes get_args may WRITE are metric_cls and metric_params only (a store to any other attribute, e.g. args.thetas, is refused: broken obligation).  "
+                "Runtime: kind cli runs main() in-process with --distance-metric-param; the parametrised metric class is defined by the harness and made visible to get_class as an attribute of the module "
+                "batchie.distance.mse for the duration of the case (the package ships no metric with a required argument).  OBSERVATION (not a clause of C07): on the unchanged tree "
+                "`--distance-metric-param sigmoid=false` raises KeyError('sigmoid') because parameter types are looked up only among __init__ arguments without a default. ")
+
 
 def _tmpdir():
     os.makedirs(common.WORK, exist_ok=True)
@@ -157,6 +188,10 @@ def gen(rng, tier):
     # scripts of ChunkedDistanceMatrix calls, real class vs translated methods (driver op 5)
     for _ in range(150 if tier == "quick" else 1500):
         yield dict(kind="script", script=_gen_script(rng))
+    # hand-built matrices (gap review G7.1): all pairs of a size-n matrix added by hand in a random order over one or two
+    # objects (one pair possibly left out, a diagonal / repeated / out-of-range key possibly thrown in), concat, save + load, to_dense
+    for _ in range(60 if tier == "quick" else 600):
+        yield dict(kind="script", script=_gen_hand_built(rng))
     # the CLI wrapper, in-process, on real Screen / ThetaHolder files (implementation-only predicate)
     for _ in range(6 if tier == "quick" else 40):
         n1, n2 = rng.randint(1, 3), rng.randint(0, 3)
@@ -166,6 +201,9 @@ def gen(rng, tier):
         order = list(range(c)) + [rng.randrange(c) for _ in range(rng.randint(0, 2))]
         rng.shuffle(order)
         yield dict(kind="cli", chains=[n1, n2], c=c, order=order, alphas=[rng.randint(-24, 24) / 8.0 for _ in range(n)])
+    # ... several --thetas files whose command-line order is NOT the lexicographic order of their paths (the matrix index is
+    # the position in command-line order, chain-major), and --distance-metric-param (gap review G7.2)
+    yield from _gen_cli_files(rng, tier)
     # mse
     for _ in range(60 if tier == "quick" else 600):
         m = rng.choice([0, 1, 1, 2, 3, 5, 8])
@@ -173,6 +211,118 @@ def gen(rng, tier):
         a = mk()
         b = rng.choice([mk(), list(a)])
         yield dict(kind="mse", sigmoid=rng.random() < 0.5, a=a, b=b)
+    # gap review G7.3: inputs the pipeline never produces (predictions are clipped viabilities of ONE screen), with the outcome
+    # of the unchanged tree written down: non-finite predictions, predictions of unequal lengths
+    for _ in range(12 if tier == "quick" else 80):
+        m = rng.choice([1, 2, 3, 5])
+        if rng.random() < 0.5:
+            a = [rng.choice(["inf", "-inf", "inf", "1.5", "0.0"]) for _ in range(m)]
+            b = list(a) if rng.random() < 0.6 else [rng.choice(["inf", "-inf", "2.0"]) for _ in range(m)]
+        else:
+            a = [repr(rng.randint(-16, 16) / 8.0) for _ in range(m + rng.choice([1, 2]))]
+            b = [repr(rng.randint(-16, 16) / 8.0) for _ in range(rng.choice([1, 1, m]))]
+        yield dict(kind="mse_edge", sigmoid=rng.random() < 0.5, a=a, b=b)
+
+
+def _distinct_alphas(rng, n):
+    """n different logits on a grid of eighths: every posterior sample predicts a different viability"""
+    return [x / 8.0 for x in rng.sample(range(-24, 25), n)]
+
+
+_BOOL_WORDS = {True: ["true", "T", "yes", "y", "1", "True"], False: ["false", "F", "no", "n", "0", "False"]}
+
+
+def _gen_cli_files(rng, tier):
+    big = tier != "quick"
+
+    def case(names, chains, c, mparam=None, repeat=0):
+        n = sum(chains)
+        order = list(range(c)) + [rng.randrange(c) for _ in range(repeat)]
+        rng.shuffle(order)
+        d = dict(kind="cli", chains=chains, names=names, c=c, order=order, alphas=_distinct_alphas(rng, n))
+        if mparam is not None:
+            d.update(mparam)
+        return d
+
+    def mparam():
+        r = rng.random()
+        if r < 0.34:
+            return None
+        if r < 0.5:      # the shipped metric, its only option: today a KeyError (the option is looked up among required arguments)
+            b = rng.random() < 0.7
+            return dict(metric="MSEDistance", params=[["sigmoid", rng.choice(_BOOL_WORDS[not b]), "bool", not b]])
+        sg = rng.random() < 0.5
+        sc = rng.choice([0.5, 2.0, 3.0, 0.25])
+        ps = [["sigmoid", rng.choice(_BOOL_WORDS[sg]), "bool", sg], ["scale", repr(sc), "float", sc]]
+        if rng.random() < 0.5:
+            ps.reverse()
+        return dict(metric="VerifParamMSE", params=ps)
+
+    # twelve single-sample files chain_0 .. chain_11 in numeric order (chain_10 sorts before chain_2), 1 and several chunks
+    yield case(["chain_%d.h5" % i for i in range(12)], [1] * 12, 1)
+    yield case(["chain_%d.h5" % i for i in range(12)], [1] * 12, 3, mparam=dict(metric="VerifParamMSE", params=[["scale", "2.0", "float", 2.0], ["sigmoid", "no", "bool", False]]))
+    # three files in reverse lexicographic order, unequal sizes
+    yield case(["c.h5", "b.h5", "a.h5"], [2, 1, 2], 1)
+    yield case(["c.h5", "b.h5", "a.h5"], [1, 2, 1], 4, repeat=1)
+    # the only option of the only shipped metric
+    yield case(["t.h5"], [3], 2, mparam=dict(metric="MSEDistance", params=[["sigmoid", "false", "bool", False]]))
+    for _ in range(6 if not big else 60):
+        k = rng.choice([2, 3, 3, 4, 5, 11])
+        chains = [rng.choice([1, 1, 2]) for _ in range(k)] if k < 11 else [1] * k
+        scheme = rng.choice(["numeric", "shuffled", "reversed"])
+        if scheme == "numeric" and k < 11:
+            names = ["chain_%d.h5" % i for i in rng.sample(range(8, 13), min(k, 5))]
+            names = sorted(names, key=lambda s_: int(s_[6:-3]))      # numeric order; 8, 9 sort after 10 lexicographically
+            chains = chains[:len(names)]
+        elif scheme == "numeric":
+            names = ["chain_%d.h5" % i for i in range(k)]
+        else:
+            names = ["%s.h5" % ch for ch in "abcdefghijkl"[:k]]
+            if scheme == "reversed":
+                names.reverse()
+            else:
+                while names == sorted(names):
+                    rng.shuffle(names)
+        n = sum(chains)
+        npairs = n * (n - 1) // 2
+        c = rng.choice([1, 2, 3, npairs + 1]) if n <= 6 else rng.choice([1, 2, 3])
+        yield case(names, chains, c, mparam=mparam(), repeat=rng.choice([0, 0, 1]))
+
+
+def _gen_hand_built(rng):
+    n = rng.choice([2, 3, 3, 4, 4, 5])
+    pairs = [(i, j) for i in range(n) for j in range(i)]
+    rng.shuffle(pairs)
+    flavour = rng.choice(["complete", "complete", "missing", "missing", "diagonal", "repeat", "range"])
+    if flavour == "missing":
+        pairs = pairs[:-rng.randint(1, min(2, len(pairs)))]
+    two = rng.random() < 0.4 and len(pairs) >= 2
+    cut = rng.randint(1, len(pairs) - 1) if two else len(pairs)
+    room = len(pairs) + 3
+    cmds = [[0, n, 1, 0, [room]]] + ([[0, n, 1, 0, [room]]] if two else [])
+    vals = rng.sample(range(0, 40), len(pairs))          # distinct values (0 included): a misplaced entry shows
+    adds = [[1, 0 if k < cut else 1, i, j, vals[k]] for k, (i, j) in enumerate(pairs)]
+    if flavour == "diagonal":
+        a = rng.randrange(n)
+        adds.insert(rng.randint(0, len(adds)), [1, 0, a, a, 17])
+        if rng.random() < 0.5 and adds:
+            adds.pop(rng.randrange(len(adds)))            # as many entries as pairs, one of them on the diagonal
+    elif flavour == "repeat" and pairs:
+        i, j = rng.choice(pairs[:cut])
+        adds.insert(rng.randint(0, len(adds)), [1, 0, i, j, 23])
+    elif flavour == "range":
+        adds.insert(rng.randint(0, len(adds)), [1, 0, rng.choice([n, n + 1, 1]), rng.choice([-1, 0, -2]), 29])
+    cmds += adds
+    reg = 0
+    if two:
+        order = [0, 1] if rng.random() < 0.5 else [1, 0]
+        cmds.append([3, order + ([rng.choice(order)] if rng.random() < 0.3 else [])])
+        reg = 2
+    if rng.random() < 0.5:
+        cmds.append([7, reg])
+        reg += 1
+    cmds += [[4, reg], [5, reg]]
+    return cmds
 
 
 def _gen_script(rng):
@@ -245,7 +395,7 @@ def _run_script(cmds):
 
     from batchie.distance_calculation import ChunkedDistanceMatrix, get_lower_triangular_indices_chunk
 
-    regs, outs, wire = [], [], []
+    regs, outs, wire, obs = [], [], [], []
 
     def attempt(f):
         try:
@@ -291,6 +441,10 @@ def _run_script(cmds):
             k = fix(cmd[1])
             wire.append([5, k])
             res = attempt(lambda: [[_as_int(x) for x in row] for row in regs[k].to_dense().tolist()])
+            m_ = regs[k]
+            cur_ = int(m_.current_index)
+            obs.append(dict(size=int(m_.size), keys=[(int(r_), int(c_)) for r_, c_ in zip(m_.row_indices[:cur_], m_.col_indices[:cur_])],
+                            vals=[float(x) for x in m_.values[:cur_]], res=res))
         else:
             wire.append(cmd)
             res = attempt(lambda: [[int(i), int(j)] for i, j in get_lower_triangular_indices_chunk(cmd[1], cmd[2], cmd[3])])
@@ -300,7 +454,55 @@ def _run_script(cmds):
         outs.append(res)
     dump = [[int(m.size), int(m.chunk_size), int(m.current_index), [int(x) for x in m.row_indices], [int(x) for x in m.col_indices],
              [_as_int(x) for x in m.values]] for m in regs]
-    return wire, [outs, dump]
+    return wire, [outs, dump], obs
+
+
+def _pred_hand_built(obs):
+    """gap review G7.1: 'a matrix missing any pair refuses to be densified' on matrices built by hand through the public class.
+    Judged only for matrices whose stored keys are distinct, strictly lower-triangular and in range (what any family of chunk
+    files can produce, in any order): missing a pair <=> refused, and a densified matrix is symmetric with zero diagonal and
+    carries each stored value at both mirrored cells.  A matrix with a diagonal / repeated / negative key is outside the
+    property (the class accepts such keys: Props/C07.v, C07_to_dense_accepts_ill_formed_refuted); it is only tagged."""
+    pred, tags = None, set()
+    for o in obs:
+        n, keys = o["size"], o["keys"]
+        wf = len(set(keys)) == len(keys) and all(0 <= j < i < n for i, j in keys)
+        if not wf:
+            tags.add("ill-formed-densified" if o["res"][0] == 0 else "ill-formed-refused")
+            continue
+        complete = len(keys) == n * (n - 1) // 2
+        if o["res"][0] == 0:
+            D = o["res"][1]
+            if not complete:
+                pred = "hand-built matrix of size %d missing a pair was densified (stored keys %r)" % (n, keys)
+            else:
+                exp = [[0] * n for _ in range(n)]
+                for (i, j), v in zip(keys, o["vals"]):
+                    exp[i][j] = exp[j][i] = int(v)
+                if D != exp:
+                    pred = "hand-built complete matrix densified to %r, stored values give %r" % (D, exp)
+            tags.add("hand-built-densified")
+        else:
+            if complete and n >= 0:
+                pred = "hand-built complete matrix of size %d refused: error tag %r" % (n, o["res"][1])
+            tags.add("hand-built-refused")
+    return pred, sorted(tags)
+
+
+def extra(tier):
+    """the witness of C07_to_dense_accepts_ill_formed_refuted (Props/C07.v) replayed on the implementation"""
+    from batchie.distance_calculation import ChunkedDistanceMatrix
+
+    def go():
+        m = ChunkedDistanceMatrix(3)
+        m.add_value(1, 1, 5.0)
+        m.add_value(2, 2, 7.0)
+        m.add_value(1, 0, 3.0)
+        return [[int(x) for x in row] for row in m.to_dense().tolist()]
+    got = impl_call(go)
+    want = [[0, 3, 0], [3, 5, 0], [0, 0, 7]]
+    return [("props-witness-ill-formed-densified", got == want,
+             "ChunkedDistanceMatrix(3) + add_value(1,1,5), (2,2,7), (1,0,3): to_dense gave %r, the model (Props/C07.v) says %r" % (got, want))]
 
 
 def _save_load(m):
@@ -345,10 +547,11 @@ def run(desc):
         feats = ["chunks"] + (["n_chunks>pairs"] if c > len(expect) else []) + (["trivial"] if n < 2 else []) + (["remainder"] if len(expect) % c else [])
         return dict(wire=[0, n, c], impl=chunks, pred=pred, features=feats)
     if k == "script":
-        wire, impl = _run_script(desc["script"])
+        wire, impl, obs = _run_script(desc["script"])
         errs = sorted({"err%d" % o[1] for o in impl[0] if o[0] == 1})
         ops = sorted({"op%d" % c[0] for c in wire})
-        return dict(wire=[5, wire], impl=impl, pred=None, features=["script"] + errs + ops + (["trivial"] if len(wire) < 2 else []))
+        pred, tags = _pred_hand_built(obs)
+        return dict(wire=[5, wire], impl=impl, pred=pred, features=["script"] + errs + ops + tags + (["trivial"] if len(wire) < 2 else []))
     if k in ("pipeline", "srcpipeline"):
         n, c, order, table = desc["n"], desc["c"], desc["order"], desc["table"]
         d = _tmpdir()
@@ -424,16 +627,86 @@ def run(desc):
             return None
         feats = ["mse", "sigmoid" if sg else "raw"] + (["identical"] if a == b else []) + (["trivial"] if len(a) == 0 else [])
         return dict(wire=[2, sg, [frac(x) for x in a], [frac(x) for x in b]], impl=impl, pred=pred, features=feats, cmp=cmp_result(cmpf))
+    if k == "mse_edge":
+        return _run_mse_edge(desc)
     raise ValueError(k)
 
 
+def _run_mse_edge(desc):
+    """MSEDistance outside the pipeline's inputs; implementation only (the model is over rationals of one length).  Written down,
+    not judged: (1) sigmoid=False on identical predictions containing +-inf gives NaN (inf - inf), sigmoid=True gives 0.0
+    (expit(+-inf) = 1 / 0); (2) unequal lengths: a length-1 vector is broadcast silently (the model and the link say: equal
+    lengths only, Mse.mse_distance = Err 7), other unequal lengths raise ValueError.  Judged: symmetry and non-negativity
+    whenever a number comes back, and 0 on identical FINITE-after-transformation predictions."""
+    import warnings
+
+    from batchie.distance.mse import MSEDistance
+
+    a, b, sg = [float(x) for x in desc["a"]], [float(x) for x in desc["b"]], desc["sigmoid"]
+    A, B = np.array(a, dtype=float), np.array(b, dtype=float)
+    with warnings.catch_warnings():
+        warnings.simplefilter("ignore")
+        v = impl_call(lambda: float(MSEDistance(sigmoid=sg).distance(A, B)))
+        v2 = impl_call(lambda: float(MSEDistance(sigmoid=sg).distance(B, A)))
+    feats = ["mse-edge", "sigmoid" if sg else "raw"]
+    pred = None
+    nonfinite = any(x in (float("inf"), float("-inf")) for x in a + b)
+    if len(a) != len(b):
+        feats.append("unequal-lengths")
+        if isinstance(v, ImplError):
+            feats.append("unequal-lengths-refused")
+            if len(a) == 1 or len(b) == 1:
+                pred = "harness expectation: a length-1 prediction is broadcast, got %r" % (v,)
+        else:
+            feats.append("broadcast-accepted")
+            if not (len(a) == 1 or len(b) == 1):
+                pred = "metric returned %r on predictions of lengths %d and %d" % (v, len(a), len(b))
+    if nonfinite:
+        feats.append("non-finite")
+    if not isinstance(v, ImplError):
+        if isinstance(v2, ImplError) or not (v == v2 or (v != v and v2 != v2)):
+            pred = "metric not symmetric: %r / %r" % (v, v2)
+        if v < 0:
+            pred = "metric negative"
+        if a == b and v != 0:
+            if v != v and not sg and nonfinite:
+                feats.append("identical-nonfinite-nan")       # documented: inf - inf
+            else:
+                pred = "metric %r on identical predictions" % (v,)
+    return dict(wire=None, impl=None, pred=pred, features=feats)
+
+
+def _param_metric_cls():
+    """a DistanceMetric with REQUIRED annotated __init__ arguments (the package ships none): the scaled MSE.  Made visible to
+    introspection.get_class by a module attribute set for the duration of one case (in this process only; /repo is untouched)."""
+    from scipy.special import expit
+
+    from batchie.core import DistanceMetric
+
+    class VerifParamMSE(DistanceMetric):
+        def __init__(self, sigmoid: bool, scale: float, power: int = 2):
+            if type(sigmoid) is not bool or type(scale) is not float:
+                raise TypeError("VerifParamMSE: parameters were not cast by their annotations: %r %r" % (sigmoid, scale))
+            self.sigmoid, self.scale, self.power = sigmoid, scale, power
+
+        def distance(self, a, b):
+            if self.sigmoid:
+                a, b = expit(a), expit(b)
+            return self.scale * np.mean((a - b) ** self.power)
+
+    return VerifParamMSE
+
+
 def _run_cli(desc):
-    """calculate_distance_matrix.main() per chunk index on real files, then concat + to_dense"""
+    """calculate_distance_matrix.main() per chunk index on real files, then concat + to_dense.  The --thetas files are given in
+    the order of desc["names"] (default thetas_0.h5, thetas_1.h5); posterior sample i of the property is the i-th sample in
+    COMMAND-LINE order, chain-major.  desc["metric"] / desc["params"]: --distance-metric and --distance-metric-param words."""
     import sys
     from unittest import mock
 
     from scipy.special import expit
 
+    import batchie.distance.mse as mse_mod
     from batchie.cli import calculate_distance_matrix
     from batchie.core import ThetaHolder
     from batchie.data import Screen
@@ -441,6 +714,8 @@ def _run_cli(desc):
     from batchie.models.sparse_combo import SparseDrugComboMCMCSample
 
     alphas, chains, c, order = desc["alphas"], desc["chains"], desc["c"], desc["order"]
+    names = desc.get("names") or ["thetas_%d.h5" % ci for ci in range(len(chains))]
+    metric, params = desc.get("metric", "MSEDistance"), desc.get("params") or []
     n = len(alphas)
     d = _tmpdir()
     try:
@@ -456,33 +731,57 @@ def _run_cli(desc):
                 h.add_theta(SparseDrugComboMCMCSample(W=np.zeros((2, 1)), W0=np.zeros((2,)), V2=np.zeros((2, 1)), V1=np.zeros((2, 1)),
                                                       V0=np.zeros((2,)), alpha=float(a), precision=1.0))
             pos += m
-            fn = os.path.join(d, "thetas_%d.h5" % ci)
+            fn = os.path.join(d, names[ci])
             h.save_h5(fn)
             files.append(fn)
+        extra = []
+        for k_, word, _t, _v in params:
+            extra += ["--distance-metric-param", "%s=%s" % (k_, word)]
 
         def go():
             ms = []
             for p_, idx in enumerate(order):
                 out = os.path.join(d, "dist_%d.h5" % p_)
                 argv = ["calculate_distance_matrix", "--data", os.path.join(d, "screen.h5"), "--thetas"] + files + [
-                    "--distance-metric", "MSEDistance", "--n-chunks", str(c), "--chunk-index", str(idx), "--output", out]
-                common.run_cli_main(calculate_distance_matrix, argv)
+                    "--distance-metric", metric] + extra + ["--n-chunks", str(c), "--chunk-index", str(idx), "--output", out]
+                with mock.patch.object(mse_mod, "VerifParamMSE", _param_metric_cls(), create=True):
+                    common.run_cli_main(calculate_distance_matrix, argv)
                 ms.append(ChunkedDistanceMatrix.load(out))
             return ChunkedDistanceMatrix.concat(ms).to_dense()
         out = impl_call(go)
     finally:
         shutil.rmtree(d, ignore_errors=True)
     pred = None
-    if isinstance(out, ImplError):
+    feats = ["cli"] + (["trivial"] if n < 2 else []) + (["two-chain-files"] if all(chains) and len(chains) == 2 else [])
+    if len(files) > 1 and files != sorted(files):
+        feats.append("thetas-order-not-lexicographic")
+    if len(files) > 2:
+        feats.append("many-thetas-files")
+    if params:
+        feats.append("metric-param:" + metric)
+    conf = {k_: v_ for k_, _w, _t, v_ in params}
+    sigmoid, scale = conf.get("sigmoid", True), conf.get("scale", 1.0)
+    # the shipped MSEDistance has no required argument: the unchanged tree refuses its only option with KeyError (observation
+    # recorded in Props/C07.v, C07_cli_defaulted_metric_param_is_key_error); not a clause of C07, so no verdict - but when the
+    # command DOES run, the entries must be those of the metric as configured
+    refused = (isinstance(out, ImplError) and metric == "MSEDistance" and params and out.cls == "KeyError"
+               and out.msg.strip("'\"") in conf)
+    if refused:
+        feats.append("defaulted-param-refused")
+    elif isinstance(out, ImplError):
         pred = "CLI pipeline over a covering family of chunks failed: %r" % (out,)
     else:
         v = [float(np.clip(expit(a), 0.01, 0.99)) for a in alphas]
-        for i in range(n):
+        f = (lambda x: float(expit(x))) if sigmoid else (lambda x: x)
+        if out.shape != (n, n):
+            pred = "CLI-assembled matrix has shape %r for %d posterior samples" % (out.shape, n)
+        for i in range(n if pred is None else 0):
             for j in range(n):
-                e = 0.0 if i == j else (float(expit(v[i])) - float(expit(v[j]))) ** 2
+                e = 0.0 if i == j else scale * (f(v[i]) - f(v[j])) ** 2
                 if abs(out[i, j] - e) > 1e-12:
-                    pred = "CLI-assembled matrix entry (%d,%d) = %r, metric on the two predictions = %r" % (i, j, float(out[i, j]), e)
-    return dict(wire=None, impl=None, pred=pred, features=["cli"] + (["trivial"] if n < 2 else []) + (["two-chain-files"] if all(chains) else []))
+                    pred = ("CLI-assembled matrix entry (%d,%d) = %r, the configured metric on posterior samples %d and %d (command-line order) = %r"
+                            % (i, j, float(out[i, j]), i, j, e))
+    return dict(wire=None, impl=None, pred=pred, features=feats)
 
 
 def shrink(desc):
